@@ -461,13 +461,9 @@ Fixpoint analyze (G : tenv) (e : expr) {struct e} : option info :=
           | Some x =>
               match (if up then x.(hi) else x.(lo)) with
               | Fin z =>
-                  (* ir_util._constant_value_of_function has no table entry for the bound
-                     functions: constant_value is only defined (and is None) when the
-                     argument is not itself constant. *)
-                  match ia.(cv) with
-                  | None => Some (mk_info (AInt (aval_const z)) None)
-                  | Some _ => None   (* constant_value would raise KeyError (finding F17): out of model *)
-                  end
+                  (* ir_util.constant_value of a bound function is the bound stored in its type
+                     (since fix 5ad5b76; before, it raised KeyError for a constant argument) *)
+                  Some (mk_info (AInt (aval_const z)) (Some (VInt z)))
               | _ => None
               end
           | None => None
@@ -576,6 +572,8 @@ Definition leaf_aval (k : ikind) (size : option Z) : aval :=
   match size with
   | None => mk_aval NegInf PosInf (Some 1) 0
   | Some w =>
+      if w <? 1 then mk_aval NegInf PosInf (Some 1) 0   (* not a possible width: reported later (fix 90ef553) *)
+      else
       match k with
       | KUInt => mk_aval (Fin 0) (Fin (2 ^ w - 1)) (Some 1) 0
       | KInt => mk_aval (Fin (- 2 ^ (w - 1))) (Fin (2 ^ (w - 1) - 1)) (Some 1) 0
